@@ -28,9 +28,18 @@ AgreeSetGet(e) == /\ ~Has(e.res, "panic")
                   /\ e.res.v = e.val
                   /\ (e.acc \notin {"MessageType", "UserClass"} => e.res.ok)
 
+\* a number of seconds stored as a Duration value: the 32-bit field in network byte order; a negative number (time offset,
+\* RFC 2132 3.4) in two's complement
+Inv4(b) == [i \in 1..4 |-> 255 - b[i]]
+RECURSIVE Inc4(_, _)
+Inc4(b, i) == IF i = 0 THEN b ELSE IF b[i] = 255 THEN Inc4([b EXCEPT ![i] = 0], i - 1) ELSE [b EXCEPT ![i] = b[i] + 1]
+Seconds32(neg, abs) == IF neg THEN Inc4(Inv4(abs), 4) ELSE abs
+AgreeSetRaw(e) == e.kind = "seconds" /\ e.raw = Seconds32(e.neg, e.abs) /\ e.wire = e.raw
+
 Agree(e) == CASE e.op = "Acc" -> AgreeAcc(e)
               [] e.op = "AccLabels" -> AgreeLabels(e)
               [] e.op = "SetGet" -> AgreeSetGet(e)
+              [] e.op = "SetRaw" -> AgreeSetRaw(e)
               [] OTHER -> FALSE
 
 ShardLo(k) == ((k - 1) * N) \div NShards + 1
